@@ -104,6 +104,7 @@ def _code(e):
 class Recorder:
     def __init__(self):
         self.pk, self.der, self.sh, self.ec, self.xo, self.ss, self.sc, self.cb, self.tc = ({} for _ in range(9))
+        self.ecz, self.scz = {}, {}     # (key, digest, signature) -> result, with the digest the library used
         self.last_ht = None
 
     def tables(self):
@@ -147,11 +148,13 @@ def _patch():
         def verify(self, z, sig):
             r = vcached("e", (self.raw, z, sig.raw), lambda: self.pt.verify(z, sig.real))
             _S["rec"].ec[(self.raw, _S["rec"].last_ht, sig.raw)] = bool(r)
+            _S["rec"].ecz[(self.raw, z, sig.raw)] = bool(r)
             return r
 
         def verify_schnorr(self, msg, sig):
             r = vcached("s", (self.raw, msg, sig.raw), lambda: self.pt.verify_schnorr(msg, sig.real))
             _S["rec"].sc[(self.raw, _S["rec"].last_ht, sig.raw)] = bool(r)
+            _S["rec"].scz[(self.raw, msg, sig.raw)] = bool(r)
             return r
 
     class SigP:
@@ -294,7 +297,13 @@ def impl_line(line):
 
 
 def eval_pred(kind, case):
-    """predicate cases are request lines as well"""
+    """predicate cases: a request line (re-verified), or a job (the spend is built and signed again through the
+    library: sign_* / get_sig_* / finalize_*)"""
+    if "job" in case:
+        seed, i, shape, layout, ht = case["job"]
+        _patch()
+        sp, tx, idx = build_spend(random.Random(f"C06:{seed}:{i}:{shape}"), shape, tuple(layout), ht)
+        return sp["built_ok"], sp["built_ok"], True
     r = impl_line(case["line"])
     return r == case.get("impl", r), r, case.get("impl", r)
 
@@ -312,6 +321,7 @@ def run_impl(tx, idx):
         ok = False
     finally:
         _S["rec"] = Recorder()     # throw-away recorder for calls outside run_impl (sign_* verify internally)
+    _S["last_rec"] = rec
     return ("ACCEPT" if ok else REJECT), rec.tables()
 
 
@@ -377,6 +387,7 @@ def _valid_ecdsa(pk_raw, sig_raw, z):
     k = ("e", (pk_raw, z, sig_raw[:-1]))
     if k not in _S["vcache"]:
         _S["vcache"][k] = pt.verify(z, sig)
+        _S["real_verifies"] = _S.get("real_verifies", 0) + 1
     return bool(_S["vcache"][k])
 
 
@@ -399,6 +410,7 @@ def _valid_schnorr(xonly, sig_raw, zmap):
     k = ("s", (xonly, msg, body))
     if k not in _S["vcache"]:
         _S["vcache"][k] = pt.verify_schnorr(msg, sig)
+        _S["real_verifies"] = _S.get("real_verifies", 0) + 1
     return bool(_S["vcache"][k])
 
 
@@ -438,9 +450,16 @@ def authorised(sp, desc, idx, zmap):
                         return True
         return False
     if shape in ("p2sh_ms", "p2wsh_ms", "p2sh_p2wsh_ms"):
-        n_ok = 0
+        # keys for which a verification against the specification's digest is already known to succeed first; the
+        # remaining (key, signature) pairs are verified for real only while fewer than m keys are satisfied
+        def known_true(k):
+            return any(len(s_) >= 9 and _S["vcache"].get(("e", (k, zmap.get(s_[-1]), s_[:-1]))) for s_ in els)
+        done = [k for k in sp["pubkeys"] if known_true(k)]
+        n_ok = len(done)
         for k in sp["pubkeys"]:
-            if any(ecdsa_ok(k, s_) for s_ in els):
+            if n_ok >= sp["m"]:
+                break
+            if k not in done and any(ecdsa_ok(k, s_) for s_ in els):
                 n_ok += 1
         return n_ok >= sp["m"]
     if shape == "p2tr":
@@ -599,9 +618,11 @@ def build_spend(rng, shape, layout=None, ht=None):
         internal = key.point
         n_leaves = rng.choice([0, 1, 2, 3]) if shape == "p2tr_key" else rng.choice([1, 2, 3, 4])
         leaves, leafinfo = [], []
-        for _ in range(n_leaves):
-            if rng.random() < 0.7:
+        for li_ in range(n_leaves):
+            if rng.random() < 0.7 or (li_ == 0 and (n_in, n_out, idx) == (1, 1, 0)):
                 n = rng.randrange(1, 6)
+                if li_ == 0 and (n_in, n_out, idx) == (1, 1, 0):
+                    n = 2                      # a leaf small enough for the library's own finalize_p2tr_multisig
                 k = rng.randrange(1, n + 1)
                 sub = rng.sample(ks, n)
                 ts = MultiSigTapScript([s.point for s in sub], k)
@@ -627,7 +648,7 @@ def build_spend(rng, shape, layout=None, ht=None):
             tweaked = key.tweaked_key(merkle_root)
             ok = tx.sign_p2tr_keypath(idx, tweaked, hash_type=tht)
         else:
-            li = rng.randrange(len(leaves))
+            li = 0 if (n_in, n_out, idx) == (1, 1, 0) else rng.randrange(len(leaves))
             lf, info = leaves[li], leafinfo[li]
             cb = tree.control_block(internal, lf)
             ti.witness = Witness([info["script"].raw_serialize(), cb.serialize()])
@@ -638,6 +659,13 @@ def build_spend(rng, shape, layout=None, ht=None):
             if len(info["keys"]) == 1:
                 sig = tx.get_sig_taproot(idx, by_x[info["keys"][0]], ext_flag=1, hash_type=tht)
                 ti.witness.items.insert(0, sig)
+            elif len(info["keys"]) <= 2:
+                # the library's own finalizer (it verifies every signature against every key: small leaves only)
+                ti.witness = Witness([])
+                tx.initialize_p2tr_multisig(idx, cb, info["script"])
+                sigs = [tx.get_sig_taproot(idx, by_x[x], ext_flag=1, hash_type=tht) if x in chosen else b""
+                        for x in info["keys"]]
+                tx.finalize_p2tr_multisig(idx, sigs)
             else:
                 # witness order: the signature for the LAST key is at the bottom ... first key on top
                 for x in info["keys"]:
@@ -867,40 +895,47 @@ def foreign_maker(sp, idx):
 
 
 # --------------------------------------------------------------------------------- worker
+def slim(sp):
+    """the spent output's commitment data as plain values"""
+    keep = ("shape", "h160", "redeem_raw", "wscript_raw", "pubkeys", "m", "outkey", "openings", "built_ok")
+    return {k: sp[k] for k in keep if k in sp}
+
+
 def _row(sp, shape, name, t, j, base=False):
     """run the implementation on input j of t (with recording) and snapshot everything the oracle needs"""
     impl, tables = run_impl(t, j)
     desc = tx_desc(t)
-    return {"name": name, "shape": shape, "idx": j, "line": request_line(desc, j), "mline": spend_line(t, j),
-            "impl": impl, "auth": None, "tables": tables, "base": base, "built_ok": sp["built_ok"], "desc": desc}
+    r = {"name": name, "shape": shape, "idx": j, "line": request_line(desc, j), "mline": spend_line(t, j),
+         "impl": impl, "auth": None, "tables": tables, "base": base, "built_ok": sp["built_ok"]}
+    if impl == "ACCEPT" or base:
+        els = elements_of(desc, j)
+        rec = _S["last_rec"]
+        r["oracle"] = {"desc": desc, "spec": spec_requests(sp, desc, j, sig_hash_types(sp, els)),
+                       "ecz": list(rec.ecz.items()), "scz": list(rec.scz.items())}
+    return r
 
 
-def _oracle(sp, rows):
-    """authorisation of the rows that need it (accepted ones and library-built ones): the digests come from the
-    Lean specification (one drv_c05 batch per spend), the signatures are verified against them"""
-    need = [r for r in rows if r["impl"] == "ACCEPT" or r["base"]]
-    reqs, where = [], []
+def oracle_all(rows, sps, drv5, workers):
+    """authorisation of the rows that need it (accepted ones and library-built ones): ONE drv_c05 batch with the
+    specification's digests for all of them; signatures are verified against those digests — looked up among the
+    verifications the implementation performed when the digest is the same, computed for real otherwise"""
+    need = [r for r in rows if "oracle" in r]
+    reqs = list(dict.fromkeys(q for r in need for q in r["oracle"]["spec"].values()))
+    ans = dict(zip(reqs, batch_parallel(drv5, reqs, workers=workers))) if reqs else {}
     for r in need:
-        hts = sig_hash_types(sp, elements_of(r["desc"], r["idx"]))
-        q = spec_requests(sp, r["desc"], r["idx"], hts)
-        r["_hts"] = list(q)
-        for ht in r["_hts"]:
-            reqs.append(q[ht])
-            where.append((r, ht))
-    # identical requests (unchanged transaction) are asked once
-    uniq = list(dict.fromkeys(reqs))
-    ans = dict(zip(uniq, Driver("drv_c05").batch(uniq))) if uniq else {}
-    zmaps = {}
-    for (r, ht), q in zip(where, reqs):
-        zmaps.setdefault(id(r), {})[ht] = parse_spec_answer(sp["shape"], ans[q])
-    for r in need:
+        o = r.pop("oracle")
+        sp = sps[r["sp"]]
+        zmap = {ht: parse_spec_answer(sp["shape"], ans[q]) for ht, q in o["spec"].items()}
+        for (k, z, sg), v in o["ecz"]:
+            _S["vcache"].setdefault(("e", (k, z, sg)), v)
+        for (k, m_, sg), v in o["scz"]:
+            _S["vcache"].setdefault(("s", (k, m_, sg)), v)
         try:
-            r["auth"] = bool(authorised(sp, r["desc"], r["idx"], zmaps.get(id(r), {})))
+            r["auth"] = bool(authorised(sp, o["desc"], r["idx"], zmap))
         except MachineryError:
             raise
         except Exception:
             r["auth"] = False
-        r.pop("_hts", None)
 
 
 def _work(job):
@@ -913,8 +948,9 @@ def _work(job):
     except MachineryError:
         raise
     except Exception as e:   # the library could not build the spend: completeness failure
-        return [{"name": "build", "shape": shape, "idx": 0, "line": f"build {shape} {i} {layout} {ht}", "mline": "",
-                 "impl": "raise " + type(e).__name__, "auth": True, "tables": "", "base": True, "built_ok": False}]
+        return {"sp": {"shape": shape}, "rows": [
+            {"name": "build", "shape": shape, "idx": 0, "line": f"build {shape} {i} {layout} {ht}", "mline": "",
+             "impl": "raise " + type(e).__name__, "auth": True, "tables": "", "base": True, "built_ok": False}]}
     cases = list(mutations(rng, sp, tx, idx, foreign_maker(sp, idx)))     # clones, made before any in-place edit
     rows = [_row(sp, shape, "unmutated", tx, idx, base=True)]
     for name, t in cases:
@@ -949,10 +985,7 @@ def _work(job):
         tx.tx_ins[j].witness = tx.tx_ins[idx].witness
         rows.append(_row(sp, shape, "shared_witness_object", tx, j))
         rows.append(_row(sp, shape, "shared_witness_object:original", tx, idx))
-    _oracle(sp, rows)
-    for r in rows:
-        del r["desc"]
-    return rows
+    return {"sp": slim(sp), "rows": rows}
 
 
 # --------------------------------------------------------------------------------- fixed witnesses of the findings
@@ -999,60 +1032,110 @@ def finding_cases():
 
 
 # --------------------------------------------------------------------------------- run
+CHEAP = {"scriptsig_", "scriptsig_op", "scriptsig__keep_witness", "no_witness", "annex_only", "annex_only_", "empty_item",
+         "redeem_then_nop", "redeem_then_", "junk_then_redeem", "true_then_redeem_nop", "redeem_only_no_sigs",
+         "if_swallow", "scriptsig_true_only", "pk_only", "wscript_missing", "sigs_only_no_script", "cb_truncated",
+         "drop_sig", "empty_sig", "redeem_bitflip", "wscript_bitflip", "leaf_bitflip", "cb_bitflip",
+         "leaf_nonminimal_push", "nested_program_in_witness"}
+
+
+def jobs_for(seed, n):
+    """shape x layout x hash type, enumerated so that every shape meets every layout (more inputs than outputs with
+    the spend at every index included) and every hash type the library can sign with"""
+    jobs = []
+    for i in range(n):
+        shape = SHAPES[i % len(SHAPES)]
+        r = i // len(SHAPES)
+        layout = LAYOUTS[r % len(LAYOUTS)]
+        hts = TAPROOT_HTS if shape.startswith("p2tr") else ECDSA_HTS
+        ht = hts[(r // 2 + i) % len(hts)] if r % 2 else hts[0]
+        jobs.append((seed, i, shape, layout, ht))
+    return jobs
+
+
 def run(ctx):
     _patch()
     keys()
-    rng, rec = ctx.rng, ctx.rec
+    rec = ctx.rec
     drv = ctx.driver("drv_c06")
     # findings: the fixed witnesses (none of them carries an authorising signature)
     rows = []
     for fid, what, tx in finding_cases():
         impl, tables = run_impl(tx, 0)
-        rec.finding(fid, impl == "ACCEPT", {"line": spend_line(tx, 0), "what": what})
-        rows.append({"name": "finding_" + fid, "shape": "finding", "line": spend_line(tx, 0), "impl": impl, "auth": False,
-                     "tables": tables, "base": False, "built_ok": True})
-    n = ctx.n(256, 3200)
-    jobs = [(ctx.seed, i, SHAPES[i % len(SHAPES)]) for i in range(n)]
+        line = request_line(tx_desc(tx), 0)
+        rec.finding(fid, impl == "ACCEPT", {"line": line, "what": what})
+        rows.append({"name": "finding_" + fid, "shape": "finding", "idx": 0, "line": line, "mline": spend_line(tx, 0),
+                     "impl": impl, "auth": False, "tables": tables, "base": False, "built_ok": True})
+    n = ctx.n(128, 1600)
+    jobs = jobs_for(ctx.seed, n)
+    import time
+    t0 = time.time()
+    sps = []
     for part in pmap(_work, jobs, workers=ctx.workers, chunksize=1):
-        rows += part
-    lines = [f"verify r {r['line']} {r['tables']}" for r in rows if r["tables"] != ""]
+        for r in part["rows"]:
+            r["sp"] = len(sps)
+        sps.append(part["sp"])
+        rows += part["rows"]
+    t1 = time.time()
+    oracle_all(rows, sps, ctx.driver("drv_c05"), min(4, ctx.workers))
+    t2 = time.time()
+    rec.count("oracle:signature verifications not already performed by the implementation", _S.get("real_verifies", 0))
+    lines = [f"verify r {r['mline']} {r['tables']}" for r in rows if r["tables"] != ""]
     answers = iter(batch_parallel(drv, lines, workers=min(4, ctx.workers)))
+    rec.note(f"wall seconds: spends and implementation runs (parallel) {t1 - t0:.0f}, specification digests and "
+             f"authorisation {t2 - t1:.0f}, model {time.time() - t2:.0f}")
+    for j in jobs[:len(SHAPES)]:
+        rec.cov_pred("build", {"job": list(j)})       # line-coverage sample of the signing / finalize_* helpers
+    cov_seen = {}
     for r in rows:
-        kind = f"{r['shape']}:{r['name'].rstrip('0123456789')}"
-        case = {"line": r["line"], "mutation": r["name"], "shape": r["shape"]}
+        # line-coverage sample: accepted cases (their verifications are already known) and rejections that need no
+        # elliptic-curve work, a few per shape and mutation
+        if r["tables"] != "" and (r["impl"] == "ACCEPT" or r["name"].split(":")[0].rstrip("0123456789") in CHEAP):
+            ck = (r["shape"], r["name"].split(":")[0].rstrip("0123456789"), r["impl"])
+            if cov_seen.get(ck, 0) < 2:
+                cov_seen[ck] = cov_seen.get(ck, 0) + 1
+                rec.cov_pred(r["shape"], {"line": r["line"], "impl": r["impl"]})
+        mut = r["name"].split(":")[0].rstrip("0123456789") if not r["name"].startswith("field:") else "field"
+        case = {"line": r["line"], "mutation": r["name"], "shape": r["shape"], "idx": r["idx"]}
+        ccase = {"request": r["line"], "mutation": r["name"], "shape": r["shape"], "idx": r["idx"]}   # not replayed by
+        # the automatic coverage sample (every replay costs elliptic-curve verifications): see cov_pred above
         if r["tables"] == "":
             rec.violation("complete:" + r["shape"], case, r["impl"], "ACCEPT", note="the library could not build the spend")
             continue
         model = next(answers)
         if model == "FUEL":
-            raise MachineryError("model out of fuel: " + r["line"][:200])
+            raise MachineryError("model out of fuel: " + r["mline"][:200])
         key = hashlib.sha256((r["line"] + r["tables"]).encode()).hexdigest()
         impl = r["impl"]
         if r["base"] and (impl != "ACCEPT" or not r["built_ok"] or not r["auth"]):
             rec.violation("complete:" + r["shape"], case, impl, "ACCEPT",
-                          note=f"library-built spend: sign_* returned {r['built_ok']}, authorised={r['auth']}")
+                          note=f"library-built spend ({r['name']}): sign_* returned {r['built_ok']}, verify_input "
+                               f"{impl}, signatures valid for the specification's digest: {r['auth']}")
             continue
         if impl == "ACCEPT" and not r["auth"]:
             rec.violation("sound:" + r["shape"], case, impl, REJECT,
-                          note=f"accepted without authorisation ({r['name']})")
+                          note=f"accepted although no signature present verifies for the specification's digest of the "
+                               f"current transaction ({r['name']})")
             continue
-        if rec.compare(kind, dict(case, tables=r["tables"]), impl, model, determined=False, key=key,
-                       nontrivial=not r["base"]):
-            rec.sample(kind + ":" + impl, {"spend": r["line"][:300], "authorised": r["auth"]}, limit=1)
+        if rec.compare(r["shape"], dict(ccase, mline=r["mline"], tables=r["tables"], impl=impl), impl, model,
+                       determined=False, key=key, nontrivial=r["name"] != "unmutated"):
+            rec.sample(f"{r['shape']}:{mut}:{impl}", {"mutation": r["name"], "spend": r["mline"][:300],
+                                                      "authorised": r["auth"]}, limit=1)
         rec.count(f"{r['shape']}:{impl}")
-        rec.count("authorised" if r["auth"] else "unauthorised")
-        if impl == REJECT and r["auth"]:
-            rec.count("rejected_although_authorised:" + r["name"].rstrip("0123456789"))
+        rec.count(f"mutation:{mut}:{impl}")
+        if r["auth"] is not None:
+            rec.count("authorised" if r["auth"] else "unauthorised")
 
 
 def replay(ctx, v):
-    """re-execute one recorded case: rebuild the transaction context is not possible from the line alone, so the
-    replay re-runs the model on the recorded oracle tables and the fixed finding witnesses on the implementation"""
+    """re-execute one recorded case exactly: the request line carries the whole transaction with its spent outputs.
+    A soundness / completeness violation still violates when the implementation's answer is unchanged; a
+    correspondence case when the model (run on the recorded oracle tables) still differs."""
     case = v["case"]
-    for fid, what, tx in finding_cases():
-        if spend_line(tx, 0) == case.get("line"):
-            impl, _ = run_impl(tx, 0)
-            return impl == "ACCEPT"
-    if "tables" in case:
-        return ctx.driver("drv_c06").one(f"verify r {case['line']} {case['tables']}") != v["impl"]
-    return True
+    line = case.get("line", case.get("request", ""))
+    if not line.startswith("verify_tx "):
+        return True
+    impl = impl_line(line)
+    if v["kind"].startswith(("sound:", "complete:", "regression:")) or "tables" not in case:
+        return impl == v["impl"] if v["kind"].startswith(("sound:", "complete:")) else impl == "ACCEPT"
+    return ctx.driver("drv_c06").one(f"verify r {case['mline']} {case['tables']}") != impl
